@@ -292,6 +292,24 @@ func joinRes(rs []callRes, sep string) string {
 	return strings.Join(out, sep)
 }
 
+// padFill: the padding octets ahead of the pad-length octet v are the sender's choice (RFC 7296 s3.14): besides
+// random octets, the conventions other implementations use — every octet = v (what stock PKCS#7 code leaves when
+// its last octet is read as the pad length), every octet = v+1, zeros, the ESP sequence 1, 2, 3, …
+func padFill(b []byte, v byte, style int) {
+	for i := range b {
+		switch style % 5 {
+		case 1:
+			b[i] = v
+		case 2:
+			b[i] = v + 1
+		case 3:
+			b[i] = 0
+		case 4:
+			b[i] = byte(i + 1)
+		}
+	}
+}
+
 // a well-formed ciphertext a peer could have produced: random IV, pad length 0..255 compatible with the block size
 func (g *Gen) peerCiphertext(key []byte, pt []byte) []byte {
 	minPad := (16 - (len(pt)+1)%16) % 16
@@ -299,7 +317,11 @@ func (g *Gen) peerCiphertext(key []byte, pt []byte) []byte {
 	if g.chance(0.6) {
 		pad = minPad
 	}
-	full := append(append(append([]byte{}, pt...), g.keyBytesRandom(pad)...), byte(pad))
+	filler := g.keyBytesRandom(pad)
+	if g.chance(0.5) {
+		padFill(filler, byte(pad), 1+g.r.Intn(4))
+	}
+	full := append(append(append([]byte{}, pt...), filler...), byte(pad))
 	return refCBCEncrypt(key, g.keyBytesRandom(16), full)
 }
 
@@ -682,6 +704,9 @@ func (c *Ctx) c10Decrypt(g *Gen, corr *[]corrCase) {
 				if aligned {
 					pt := g.keyBytesRandom(l - 16)
 					pt[len(pt)-1] = byte(v)
+					if v < len(pt) { // the v padding octets ahead of the pad-length octet: random, or one of the usual conventions
+						padFill(pt[len(pt)-1-v:len(pt)-1], byte(v), idx)
+					}
 					ct = refCBCEncrypt(key, g.keyBytesRandom(16), pt)
 				} else {
 					ct = g.bytes(l)
